@@ -115,10 +115,16 @@ def run(F, chk):
     # on the edge where the address comparison failed the closure returns false.
     rg = chk.rule("R-C20-g", "T5", "listener lookups by address never match a listener at another address", floor=1)
     n_g = 0
+    seen_g = set()
     for root in (CFG + "ConfigBuilder::populate_clusters", CFG + "ConfigBuilder::populate_listeners", CFG + "ConfigBuilder::into_config"):
         if not F.has(root):
             continue
-        for cp in F.family(root)[1:]:
+        for cp in sorted(set(cover.reach_functions(F, root, depth=2))):
+            if "{closure" not in cp or not cp.startswith(CFG):
+                continue
+            if cp in seen_g:
+                continue
+            seen_g.add(cp)
             cb = lib.flat(F, F.body(cp))
             if cb.locals[0] != "bool":
                 continue
